@@ -43,27 +43,9 @@ def run(ctx, rep, tier):
         for _ in range(5 if tier == "quick" else 40):
             combos.append(tuple(rnd.choice(ACTIONS) for _ in range(k)))
     samples, n = [], 0
-    t0 = time.time()
+    t0 = time.process_time()
     budget = 200 if tier == "quick" else 3000
-    for combo in combos:
-        if time.time() - t0 > budget:
-            rep.coverage["truncated_after"] = n
-            break
-        # every action fires for some file: guard each by its own independent test, joined by ','-free ORs
-        parts = []
-        for i, a in enumerate(combo):
-            leaf = T.leaf(a)
-            if n % 3 == 0:
-                parts.append(leaf)
-            elif n % 3 == 1:
-                parts.append(T.op("Or", T.leaf("-uid %d" % i), leaf))
-            else:
-                parts.append(T.op("And", T.leaf("-gid %d" % i), leaf))
-        tree = parts[0]
-        for p_ in parts[1:]:
-            tree = T.op("List" if n % 2 else "And", tree, p_) if n % 3 != 2 else T.op("Or", T.op("And", tree, T.leaf("-false")), p_)
-        label = "c%d" % n
-        n += 1
+    def examine(combo, tree, label):
         has_fid = "-print-file-fid" in combo
         framed_spec = spec_framed(combo)
         findings, info = compare(B, label, tree[0], tree[1])
@@ -108,8 +90,53 @@ def run(ctx, rep, tier):
             d = B.ctx.run_native_trees([tree[1]])[0]
             rep.violation("routing:" + f["klass"], "%s: %s; native io_map=%s" % (" ".join(combo), f["text"], d.get("iomap")),
                           dict(sexpr=tree[1], finding=f["text"], detail=f.get("detail"), native_iomap=d.get("iomap")))
+
+    for combo in combos:
+        if time.process_time() - t0 > budget:
+            rep.coverage["truncated_after"] = n
+            break
+        # every action fires for some file: guard each by its own independent test, joined by ','-free ORs
+        parts = []
+        for i, a in enumerate(combo):
+            leaf = T.leaf(a)
+            if n % 3 == 0:
+                parts.append(leaf)
+            elif n % 3 == 1:
+                parts.append(T.op("Or", T.leaf("-uid %d" % i), leaf))
+            else:
+                parts.append(T.op("And", T.leaf("-gid %d" % i), leaf))
+        tree = parts[0]
+        for p_ in parts[1:]:
+            tree = T.op("List" if n % 2 else "And", tree, p_) if n % 3 != 2 else T.op("Or", T.op("And", tree, T.leaf("-false")), p_)
+        label = "c%d" % n
+        n += 1
+        examine(combo, tree, label)
         if len(samples) < 6:
-            samples.append(dict(actions=list(combo), framed=framed_spec, tree=tree[1][:160]))
+            samples.append(dict(actions=list(combo), framed=spec_framed(combo), tree=tree[1][:160]))
+    # many distinct destinations / printers allocated late (tags of two hex digits and more, tag = separator byte, ...)
+    def balanced(parts, opname):
+        if len(parts) == 1:
+            return parts[0]
+        h = len(parts) // 2
+        return T.op(opname, balanced(parts[:h], opname), balanced(parts[h:], opname))
+    many = []
+    for N in ((9, 17, 33) if tier == "quick" else (9, 17, 33, 70, 130, 300)):
+        many.append(("dest%d" % N, ["-fprint F%d" % i for i in range(N)], "List"))
+    for K in ((4, 15) if tier == "quick" else (4, 8, 15, 40, 126)):
+        many.append(("match%d" % K, ["-name n%d" % i for i in range(K)] + ["-fprint A", "-fprint0 A", "-print0"], "Or"))
+    for label, texts, opname in many:
+        if time.process_time() - t0 > budget * 2:
+            rep.coverage["many_truncated_at"] = label
+            break
+        leaves = [T.leaf(t) for t in texts]
+        if opname == "Or":
+            # matchers guard nothing: (m1 -o m2 ... ) , act1 , act2 ...
+            nm = len([t for t in texts if t.startswith("-name")])
+            tree = balanced([balanced(leaves[:nm], "Or")] + leaves[nm:], "List")
+        else:
+            tree = balanced(leaves, "List")
+        examine(tuple(t for t in texts if not t.startswith("-name")), tree, label)
+        n += 1
     n_mode = mode_predicate(B, rep, 4 if tier == "quick" else 6)
     cov = B.coverage_common()
     cov["mode_predicate"] = dict(obligations=n_mode, explanation="Expression::complex_frames executed symbolically (MIR) on -printf / -fprintf "
@@ -121,7 +148,8 @@ def run(ctx, rep, tier):
                "(destination, bytes, terminator decoded through the frame tag and io_map) equal to the specification for all files; "
                "mode rule, table keys, sharing checked on every compiled program" % len(ACTIONS),
                bounds=dict(actions=ACTIONS, combos=n), samples=samples, programs=n, evaluations=n, distinct_nontrivial=n,
-               outside="300 distinct destinations (not explored); other file names")
+               many_destinations=[m[0] for m in many],
+               outside="more than 33 (thorough: 300) distinct destinations; other file names")
     rep.coverage = cov
     rep.assumptions = ["runtime contract of DESIGN.md 2.3; the parent process adds the terminator recorded in io_map to framed records"]
 
